@@ -161,72 +161,37 @@ func (e *env) prepAttester(slot uint64) func(n *cluster.Node) error {
 	}
 }
 
-func mkAttDeneb(e *env, p params) *inst {
-	d := e.attData(p)
-	bits := bitfield.NewBitlist(8)
-	bits.SetBitAt(p.v.CommPos, true)
-	att := func(sig eth2p0.BLSSignature) *eth2spec.VersionedAttestation {
-		return &eth2spec.VersionedAttestation{Version: eth2spec.DataVersionDeneb, Deneb: &eth2p0.Attestation{AggregationBits: bits, Data: d, Signature: sig}}
+// attOf puts a phase0-format attestation into the field of the given (pre-Electra) version, or an
+// electra-format attestation into the Electra / Fulu field.
+func attOf(ver eth2spec.DataVersion, pre *eth2p0.Attestation, post *electra.Attestation, vidx *eth2p0.ValidatorIndex) *eth2spec.VersionedAttestation {
+	va := &eth2spec.VersionedAttestation{Version: ver, ValidatorIndex: vidx}
+	switch ver {
+	case eth2spec.DataVersionPhase0:
+		va.Phase0 = pre
+	case eth2spec.DataVersionAltair:
+		va.Altair = pre
+	case eth2spec.DataVersionBellatrix:
+		va.Bellatrix = pre
+	case eth2spec.DataVersionCapella:
+		va.Capella = pre
+	case eth2spec.DataVersionDeneb:
+		va.Deneb = pre
+	case eth2spec.DataVersionElectra:
+		va.Electra = post
+	case eth2spec.DataVersionFulu:
+		va.Fulu = post
+	default:
+		panic("c10 harness: attestation version")
 	}
-	in := &inst{duty: core.NewAttesterDuty(p.slot), fields: attFields(d)}
-	in.root = func() eth2p0.Root { r, err := d.HashTreeRoot(); must(err); return r }
-	in.epoch = func() eth2p0.Epoch { return d.Target.Epoch }
-	in.setEpoch = func(ep eth2p0.Epoch) { d.Target.Epoch = ep }
-	in.wrap = func(sig eth2p0.BLSSignature) core.SignedData {
-		a, err := core.NewVersionedAttestation(att(sig))
-		must(err)
-		return a
-	}
-	in.prep = e.prepAttester(p.slot)
-	in.submit = func(ctx context.Context, n *cluster.Node, sig eth2p0.BLSSignature) error {
-		return n.VAPI.SubmitAttestations(ctx, &eth2api.SubmitAttestationsOpts{Attestations: []*eth2spec.VersionedAttestation{att(sig)}})
-	}
-	in.item = func(sig eth2p0.BLSSignature) any { return att(sig) }
-	in.many = func(ctx context.Context, n *cluster.Node, items []any) error {
-		var l []*eth2spec.VersionedAttestation
-		for _, it := range items {
-			l = append(l, it.(*eth2spec.VersionedAttestation))
-		}
-		return n.VAPI.SubmitAttestations(ctx, &eth2api.SubmitAttestationsOpts{Attestations: l})
-	}
-	in.named = func() *cluster.Validator { // the endpoint resolves the validator by (slot, committee, position in committee)
-		if uint64(d.Slot) != p.slot {
-			return nil
-		}
-		for _, v := range e.cl.Vals {
-			if v.Committee == d.Index && bits.BitAt(v.CommPos) && bits.Count() == 1 {
-				return v
-			}
-		}
-		return nil
-	}
-	in.unknown = func() { bits = bitfield.NewBitlist(8); bits.SetBitAt(6, true) }
-	return in
+	return va
 }
 
-func mkAttElectra(e *env, p params) *inst {
-	d := e.attData(p)
-	d.Index = 0
-	bits := bitfield.NewBitlist(8)
-	bits.SetBitAt(p.v.CommPos, true)
-	cbits := bitfield.NewBitvector64()
-	cbits.SetBitAt(uint64(p.v.Committee), true)
-	vidx := p.v.Index
-	att := func(sig eth2p0.BLSSignature) *eth2spec.VersionedAttestation {
-		vi := vidx
-		return &eth2spec.VersionedAttestation{Version: eth2spec.DataVersionElectra, ValidatorIndex: &vi,
-			Electra: &electra.Attestation{AggregationBits: bits, Data: d, Signature: sig, CommitteeBits: cbits}}
-	}
-	in := &inst{duty: core.NewAttesterDuty(p.slot), fields: attFields(d)}
-	in.root = func() eth2p0.Root { r, err := d.HashTreeRoot(); must(err); return r }
-	in.epoch = func() eth2p0.Epoch { return d.Target.Epoch }
-	in.setEpoch = func(ep eth2p0.Epoch) { d.Target.Epoch = ep }
+func submitAtts(in *inst, att func(sig eth2p0.BLSSignature) *eth2spec.VersionedAttestation) {
 	in.wrap = func(sig eth2p0.BLSSignature) core.SignedData {
 		a, err := core.NewVersionedAttestation(att(sig))
 		must(err)
 		return a
 	}
-	in.prep = e.prepAttester(p.slot)
 	in.submit = func(ctx context.Context, n *cluster.Node, sig eth2p0.BLSSignature) error {
 		return n.VAPI.SubmitAttestations(ctx, &eth2api.SubmitAttestationsOpts{Attestations: []*eth2spec.VersionedAttestation{att(sig)}})
 	}
@@ -238,14 +203,68 @@ func mkAttElectra(e *env, p params) *inst {
 		}
 		return n.VAPI.SubmitAttestations(ctx, &eth2api.SubmitAttestationsOpts{Attestations: l})
 	}
-	in.named = func() *cluster.Validator {
-		if uint64(d.Slot) != p.slot {
+}
+
+// mkAttPre: the phase0 attestation format (Phase0, Altair, Bellatrix, Capella, Deneb fields of VersionedAttestation).
+func mkAttPre(ver eth2spec.DataVersion) func(e *env, p params) *inst {
+	return func(e *env, p params) *inst {
+		d := e.attData(p)
+		bits := bitfield.NewBitlist(8)
+		bits.SetBitAt(p.v.CommPos, true)
+		att := func(sig eth2p0.BLSSignature) *eth2spec.VersionedAttestation {
+			return attOf(ver, &eth2p0.Attestation{AggregationBits: bits, Data: d, Signature: sig}, nil, nil)
+		}
+		in := &inst{duty: core.NewAttesterDuty(p.slot), fields: attFields(d)}
+		in.root = func() eth2p0.Root { r, err := d.HashTreeRoot(); must(err); return r }
+		in.epoch = func() eth2p0.Epoch { return d.Target.Epoch }
+		in.setEpoch = func(ep eth2p0.Epoch) { d.Target.Epoch = ep }
+		submitAtts(in, att)
+		in.prep = e.prepAttester(p.slot)
+		in.named = func() *cluster.Validator { // the endpoint resolves the validator by (slot, committee, position in committee)
+			if uint64(d.Slot) != p.slot {
+				return nil
+			}
+			for _, v := range e.cl.Vals {
+				if v.Committee == d.Index && bits.BitAt(v.CommPos) && bits.Count() == 1 {
+					return v
+				}
+			}
 			return nil
 		}
-		return e.valByIndex(vidx)
+		in.unknown = func() { bits = bitfield.NewBitlist(8); bits.SetBitAt(6, true) }
+		return in
 	}
-	in.unknown = func() { vidx = 9999 }
-	return in
+}
+
+// mkAttPost: the electra attestation format (Electra, Fulu fields; the validator index travels beside the attestation).
+func mkAttPost(ver eth2spec.DataVersion) func(e *env, p params) *inst {
+	return func(e *env, p params) *inst {
+		d := e.attData(p)
+		d.Index = 0
+		bits := bitfield.NewBitlist(8)
+		bits.SetBitAt(p.v.CommPos, true)
+		cbits := bitfield.NewBitvector64()
+		cbits.SetBitAt(uint64(p.v.Committee), true)
+		vidx := p.v.Index
+		att := func(sig eth2p0.BLSSignature) *eth2spec.VersionedAttestation {
+			vi := vidx
+			return attOf(ver, nil, &electra.Attestation{AggregationBits: bits, Data: d, Signature: sig, CommitteeBits: cbits}, &vi)
+		}
+		in := &inst{duty: core.NewAttesterDuty(p.slot), fields: attFields(d)}
+		in.root = func() eth2p0.Root { r, err := d.HashTreeRoot(); must(err); return r }
+		in.epoch = func() eth2p0.Epoch { return d.Target.Epoch }
+		in.setEpoch = func(ep eth2p0.Epoch) { d.Target.Epoch = ep }
+		submitAtts(in, att)
+		in.prep = e.prepAttester(p.slot)
+		in.named = func() *cluster.Validator {
+			if uint64(d.Slot) != p.slot {
+				return nil
+			}
+			return e.valByIndex(vidx)
+		}
+		in.unknown = func() { vidx = 9999 }
+		return in
+	}
 }
 
 func (e *env) proposerDef(v *cluster.Validator, slot uint64) core.DutyDefinitionSet {
@@ -414,7 +433,50 @@ func (e *env) groupSign(v *cluster.Validator, domain string, ep eth2p0.Epoch, ro
 	return eth2p0.BLSSignature(sig)
 }
 
-func mkAggProof(legacy bool) func(e *env, p params) *inst {
+// aggOf puts a signed aggregate-and-proof into the field of the given version.
+func aggOf(ver eth2spec.DataVersion, pre *eth2p0.SignedAggregateAndProof, post *electra.SignedAggregateAndProof) *eth2spec.VersionedSignedAggregateAndProof {
+	va := &eth2spec.VersionedSignedAggregateAndProof{Version: ver}
+	switch ver {
+	case eth2spec.DataVersionPhase0:
+		va.Phase0 = pre
+	case eth2spec.DataVersionAltair:
+		va.Altair = pre
+	case eth2spec.DataVersionBellatrix:
+		va.Bellatrix = pre
+	case eth2spec.DataVersionCapella:
+		va.Capella = pre
+	case eth2spec.DataVersionDeneb:
+		va.Deneb = pre
+	case eth2spec.DataVersionElectra:
+		va.Electra = post
+	case eth2spec.DataVersionFulu:
+		va.Fulu = post
+	default:
+		panic("c10 harness: aggregate-and-proof version")
+	}
+	return va
+}
+
+func submitAggs(in *inst, ver func(sig eth2p0.BLSSignature) *eth2spec.VersionedSignedAggregateAndProof) {
+	in.wrap = func(sig eth2p0.BLSSignature) core.SignedData {
+		return core.NewVersionedSignedAggregateAndProof(ver(sig))
+	}
+	in.submit = func(ctx context.Context, n *cluster.Node, sig eth2p0.BLSSignature) error {
+		return n.VAPI.SubmitAggregateAttestations(ctx, &eth2api.SubmitAggregateAttestationsOpts{SignedAggregateAndProofs: []*eth2spec.VersionedSignedAggregateAndProof{ver(sig)}})
+	}
+	in.item = func(sig eth2p0.BLSSignature) any { return ver(sig) }
+	in.many = func(ctx context.Context, n *cluster.Node, items []any) error {
+		var l []*eth2spec.VersionedSignedAggregateAndProof
+		for _, it := range items {
+			l = append(l, it.(*eth2spec.VersionedSignedAggregateAndProof))
+		}
+		return n.VAPI.SubmitAggregateAttestations(ctx, &eth2api.SubmitAggregateAttestationsOpts{SignedAggregateAndProofs: l})
+	}
+}
+
+// mkAggProof: phase0-format aggregate-and-proof. legacy = the unversioned core.SignedAggregateAndProof (peer path
+// only), otherwise the Phase0/Altair/Bellatrix/Capella/Deneb field of VersionedSignedAggregateAndProof.
+func mkAggProof(legacy bool, version eth2spec.DataVersion) func(e *env, p params) *inst {
 	return func(e *env, p params) *inst {
 		d := e.attData(p)
 		bits := bitfield.NewBitlist(8)
@@ -442,23 +504,45 @@ func mkAggProof(legacy bool) func(e *env, p params) *inst {
 			in.wrap = func(sig eth2p0.BLSSignature) core.SignedData { return core.NewSignedAggregateAndProof(signed(sig)) }
 			return in
 		}
-		ver := func(sig eth2p0.BLSSignature) *eth2spec.VersionedSignedAggregateAndProof {
-			return &eth2spec.VersionedSignedAggregateAndProof{Version: eth2spec.DataVersionDeneb, Deneb: signed(sig)}
+		submitAggs(in, func(sig eth2p0.BLSSignature) *eth2spec.VersionedSignedAggregateAndProof {
+			return aggOf(version, signed(sig), nil)
+		})
+		in.named = func() *cluster.Validator { return e.valByIndex(ap.AggregatorIndex) }
+		in.unknown = func() { ap.AggregatorIndex = 9999 }
+		return in
+	}
+}
+
+// mkAggPost: electra-format aggregate-and-proof (electra.AggregateAndProof around an electra.Attestation with
+// committee bits; Electra and Fulu fields). signed object root = hash_tree_root(electra.AggregateAndProof).
+func mkAggPost(version eth2spec.DataVersion) func(e *env, p params) *inst {
+	return func(e *env, p params) *inst {
+		d := e.attData(p)
+		d.Index = 0
+		bits := bitfield.NewBitlist(8)
+		bits.SetBitAt(p.v.CommPos, true)
+		bits.SetBitAt(7, true)
+		cbits := bitfield.NewBitvector64()
+		cbits.SetBitAt(uint64(p.v.Committee), true)
+		ap := &electra.AggregateAndProof{AggregatorIndex: p.v.Index,
+			Aggregate:      &electra.Attestation{AggregationBits: bits, Data: d, Signature: sigOf(0xa8, p.salt), CommitteeBits: cbits},
+			SelectionProof: e.groupSign(p.v, "DOMAIN_SELECTION_PROOF", e.epochOf(d.Slot), htrUint64(uint64(d.Slot)))}
+		in := &inst{duty: core.NewAggregatorDuty(p.slot)}
+		in.fields = []field{
+			{"aggregator_index", func() { ap.AggregatorIndex += 5 }},
+			{"selection_proof", func() { ap.SelectionProof[40] ^= 1 }},
+			{"agg.data.slot", func() { d.Slot++ }},
+			{"agg.data.block_root", func() { d.BeaconBlockRoot[2] ^= 1 }},
+			{"agg.data.target_root", func() { d.Target.Root[4] ^= 1 }},
+			{"agg.bits", func() { bits.SetBitAt(3, true) }},
+			{"agg.committee_bits", func() { cbits.SetBitAt(uint64(p.v.Committee)+9, true) }},
+			{"agg.signature", func() { ap.Aggregate.Signature[0] ^= 1 }},
 		}
-		in.wrap = func(sig eth2p0.BLSSignature) core.SignedData {
-			return core.NewVersionedSignedAggregateAndProof(ver(sig))
-		}
-		in.submit = func(ctx context.Context, n *cluster.Node, sig eth2p0.BLSSignature) error {
-			return n.VAPI.SubmitAggregateAttestations(ctx, &eth2api.SubmitAggregateAttestationsOpts{SignedAggregateAndProofs: []*eth2spec.VersionedSignedAggregateAndProof{ver(sig)}})
-		}
-		in.item = func(sig eth2p0.BLSSignature) any { return ver(sig) }
-		in.many = func(ctx context.Context, n *cluster.Node, items []any) error {
-			var l []*eth2spec.VersionedSignedAggregateAndProof
-			for _, it := range items {
-				l = append(l, it.(*eth2spec.VersionedSignedAggregateAndProof))
-			}
-			return n.VAPI.SubmitAggregateAttestations(ctx, &eth2api.SubmitAggregateAttestationsOpts{SignedAggregateAndProofs: l})
-		}
+		in.root = func() eth2p0.Root { r, err := ap.HashTreeRoot(); must(err); return r }
+		in.epoch = func() eth2p0.Epoch { return e.epochOf(d.Slot) }
+		submitAggs(in, func(sig eth2p0.BLSSignature) *eth2spec.VersionedSignedAggregateAndProof {
+			return aggOf(version, nil, &electra.SignedAggregateAndProof{Message: ap, Signature: sig})
+		})
 		in.named = func() *cluster.Validator { return e.valByIndex(ap.AggregatorIndex) }
 		in.unknown = func() { ap.AggregatorIndex = 9999 }
 		return in
@@ -566,16 +650,16 @@ func mkProposalCapella(e *env, p params) *inst {
 }
 
 var allTypes = []*typeSpec{
-	{name: "att-deneb", dt: core.DutyAttester, domain: "DOMAIN_BEACON_ATTESTER", mk: mkAttDeneb},
-	{name: "att-electra", dt: core.DutyAttester, domain: "DOMAIN_BEACON_ATTESTER", mk: mkAttElectra},
+	{name: "att-deneb", dt: core.DutyAttester, domain: "DOMAIN_BEACON_ATTESTER", mk: mkAttPre(eth2spec.DataVersionDeneb)},
+	{name: "att-electra", dt: core.DutyAttester, domain: "DOMAIN_BEACON_ATTESTER", mk: mkAttPost(eth2spec.DataVersionElectra)},
 	{name: "randao", dt: core.DutyRandao, domain: "DOMAIN_RANDAO", json: true, mk: mkRandao},
 	{name: "exit", dt: core.DutyExit, domain: "DOMAIN_VOLUNTARY_EXIT", json: true, mk: mkExit},
 	{name: "registration", dt: core.DutyBuilderRegistration, domain: "DOMAIN_APPLICATION_BUILDER", genesis: true, json: true, mk: mkRegistration},
 	{name: "beacon-selection", dt: core.DutyPrepareAggregator, domain: "DOMAIN_SELECTION_PROOF", json: true, mk: mkBeaconSelection},
 	{name: "sync-message", dt: core.DutySyncMessage, domain: "DOMAIN_SYNC_COMMITTEE", mk: mkSyncMessage},
 	{name: "sync-selection", dt: core.DutyPrepareSyncContribution, domain: "DOMAIN_SYNC_COMMITTEE_SELECTION_PROOF", json: true, mk: mkSyncSelection},
-	{name: "aggproof-deneb", dt: core.DutyAggregator, domain: "DOMAIN_AGGREGATE_AND_PROOF", mk: mkAggProof(false)},
-	{name: "aggproof-legacy", dt: core.DutyAggregator, domain: "DOMAIN_AGGREGATE_AND_PROOF", mk: mkAggProof(true)},
+	{name: "aggproof-deneb", dt: core.DutyAggregator, domain: "DOMAIN_AGGREGATE_AND_PROOF", mk: mkAggProof(false, eth2spec.DataVersionDeneb)},
+	{name: "aggproof-legacy", dt: core.DutyAggregator, domain: "DOMAIN_AGGREGATE_AND_PROOF", mk: mkAggProof(true, 0)},
 	{name: "contribution", dt: core.DutySyncContribution, domain: "DOMAIN_CONTRIBUTION_AND_PROOF", mk: mkContribution},
 	{name: "proposal-capella", dt: core.DutyProposer, domain: "DOMAIN_BEACON_PROPOSER", mk: mkProposalCapella},
 }
